@@ -14,6 +14,7 @@ pub mod c05;
 pub mod c06;
 pub mod c07;
 pub mod c10;
+pub mod c11;
 pub mod c13;
 pub mod c14;
 pub mod lockstep;
